@@ -336,6 +336,43 @@ def run_case(case):
                             break
                     if len(v) > 4:
                         break
+            # a connection cut ONCE, without any reply, at each request position of the
+            # fetch: the fetch may fail, or go through if the client asks again - what it
+            # returns must be the chunk
+            for ch in targets:
+                for skip in ([0] if not all_sharded else [0, 1, 2, 3]):
+                    h = accessor_mod.get_accessor_for_url(fault_url)
+                    srv.arm("reset", "/" + ch[0] + "/", skip=skip, once=True)
+                    try:
+                        outcome = ("returned", bytes(h.fetch_chunk(*ch)))
+                    except Exception as exc:  # noqa: BLE001
+                        outcome = ("raised", exc)
+                    hits = srv.disarm()
+                    if not hits:
+                        continue
+                    obs["connections_cut_without_reply"] = obs.get(
+                        "connections_cut_without_reply", 0) + 1
+                    key = "reset:" + outcome[0]
+                    obs["fault_outcomes"][key] = obs["fault_outcomes"].get(key, 0) + 1
+                    if outcome[0] == "returned" and outcome[1] != want[ch]:
+                        v.append({"kind": "wrong-data-after-a-cut-connection",
+                                  "detail": f"{ctx} chunk {ch}: connection closed without a "
+                                  f"reply at matching request #{skip + 1}: fetch_chunk "
+                                  f"returned {len(outcome[1])} bytes that are not the chunk"})
+                    elif outcome[0] == "raised" and not all_sharded \
+                            and not isinstance(outcome[1], DataAccessError):
+                        v.append({"kind": "fault-not-reported-as-data-access-error",
+                                  "detail": f"{ctx} chunk {ch}: cut connection: "
+                                  f"{type(outcome[1]).__name__}: {str(outcome[1])[:100]}"})
+                    try:
+                        if bytes(h.fetch_chunk(*ch)) != want[ch]:
+                            v.append({"kind": "chunk-differs-over-http", "detail":
+                                      f"{ctx} chunk {ch}: after a cut connection the same "
+                                      "accessor returns other bytes"})
+                    except Exception as exc:  # noqa: BLE001
+                        v.append({"kind": "accessor-unusable-after-the-fault-passed",
+                                  "detail": f"{ctx} chunk {ch}: cut connection@{skip}: "
+                                  f"{type(exc).__name__}: {str(exc)[:100]}"})
             # faults on the HEAD probes (shard discovery, file_exists)
             for mode in ("404", "500", "503"):
                 h = accessor_mod.get_accessor_for_url(fault_url)
@@ -428,6 +465,7 @@ def gates(obs, tier):
         and obs.get("calls_by_module", {}).get("sharded_http_accessor", 0) > 0,
         "all_dataset_kinds": len(obs.get("datasets", {})) == 5,
         "range_requests_logged": obs.get("range_requests", 0) > 100,
+        "connections_cut_without_reply": obs.get("connections_cut_without_reply", 0) > 20,
         "all_fault_modes_injected": len(obs.get("fault_modes", {})) == len(FAULTS)
         and obs.get("faults_injected_by_server", 0) > 100,
         "chunk_comparisons": obs.get("chunk_comparisons", 0) > 1000,
